@@ -27,6 +27,7 @@ type histProfile struct {
 	MaxVals     []uint64
 	FixedMin    bool
 	GovHandover bool // generate ACL / DAO-owner hand-overs with real pool addresses
+	Scripts     bool // insert a focused per-validator action sequence (one validator, one action per block)
 	seed        int
 }
 
@@ -335,5 +336,69 @@ func genHistory(t *rapid.T, pr *histProfile) *hProg {
 		maxB = minB
 	}
 	p.Blocks = rapid.SliceOfN(rapid.Custom(genBlock(pr)), minB, maxB).Draw(t, "blocks")
+	if pr.Scripts && rapid.Bool().Draw(t, "script") {
+		at := rapid.IntRange(0, len(p.Blocks)).Draw(t, "scriptat")
+		script := genValidatorScript(t, &p.Gen)
+		p.Blocks = append(p.Blocks[:at], append(script, p.Blocks[at:]...)...)
+	}
 	return p
+}
+
+// genValidatorScript: a sequence of blocks that concentrates on ONE validator key: each block carries one
+// action (stake / begin-unstake / unjail / burn request / double-sign evidence against every known
+// validator / nothing) and a time step related to the unstaking and jail durations, so that
+// interleavings such as unstake -> convicted -> re-stake -> unstake -> first maturity time are reached.
+func genValidatorScript(t *rapid.T, g *hGenesis) []hBlock {
+	key := rapid.IntRange(0, 7).Draw(t, "skey")
+	if len(g.Validators) > 0 && rapid.IntRange(0, 3).Draw(t, "sgenesisval") != 0 {
+		key = g.Validators[rapid.IntRange(0, len(g.Validators)-1).Draw(t, "sval")].Key
+	}
+	u := g.UnstakingSec
+	steps := []int64{0, 1, 1, 59, 61, u / 2, u - 1, u, u + 1, g.JailSec, g.JailSec + 1}
+	mkTx := func(kind string, e int64) hTx {
+		tx := hTx{Kind: kind, From: key, To: key, SignWith: -1, KeyInSig: true, Entropy: 7000 + e}
+		switch kind {
+		case "stake":
+			tx.Rel, tx.Amt = "min", int64(rapid.IntRange(0, 2000000).Draw(t, "sstake"))
+		case "burn":
+			tx.From = rapid.IntRange(0, 9).Draw(t, "sburner")
+			tx.Str = rapid.SampledFrom([]string{"0.01", "0.5", "1", "0"}).Draw(t, "ssev")
+		}
+		return tx
+	}
+	allEvidence := func() []hEvidence {
+		var ev []hEvidence
+		for i := 0; i < 8; i++ {
+			ev = append(ev, hEvidence{Val: i, HeightAgo: int64(rapid.IntRange(0, 2).Draw(t, "seh")), AgeSec: 0})
+		}
+		return ev
+	}
+	var actions []string
+	if rapid.IntRange(0, 3).Draw(t, "template") == 0 {
+		actions = rapid.SampledFrom([][]string{
+			{"unstake", "evidence", "stake", "unstake", "wait", "wait"},
+			{"unstake", "burn", "wait", "wait"},
+			{"evidence", "stake", "unjail", "unstake", "wait"},
+			{"unstake", "wait", "stake", "unstake", "wait"},
+			{"burn", "unstake", "stake", "wait"},
+		}).Draw(t, "tmpl")
+	} else {
+		actions = rapid.SliceOfN(rapid.SampledFrom([]string{"stake", "stake", "stake", "unstake", "unstake", "unstake", "evidence", "evidence", "wait", "wait", "burn", "unjail"}), 3, 8).Draw(t, "sactions")
+	}
+	var out []hBlock
+	for i, a := range actions {
+		b := hBlock{DTSec: rapid.SampledFrom(steps).Draw(t, "sdt"), Proposer: rapid.IntRange(0, 3).Draw(t, "sprop")}
+		if b.DTSec < 0 {
+			b.DTSec = 0
+		}
+		switch a {
+		case "evidence":
+			b.Evidence = allEvidence()
+		case "wait":
+		default:
+			b.Txs = []hTx{mkTx(a, int64(i))}
+		}
+		out = append(out, b)
+	}
+	return out
 }
